@@ -6,7 +6,7 @@ import (
 
 func init() {
 	Registry["C19"] = &Spec{
-		Explanation: "Decides structural necessary conditions of 'the language server answers from the latest text of the right document': (1) the document store has a single writer which stores, under the URI it is given, the text it is given together with CheckSource of that very text, and publishes - under the same URI - one diagnostic per diagnostic of that analysis; (2) didOpen / didChange hand it the URI and text of the same decoded notification, didChange the LAST content change (full sync); (3) hover, definition and symbols look the document up under the request's own TextDocument.URI, run the analysis on that document's own program and check result, and answer under the request's URI; (4) the position / range / diagnostic / symbol converters map same-named fields; (5) the hover traversal has an arm for every node kind and descends into every expression child (so every variable use and builtin call is reachable); (6) a hover result is created only after Contains(position) succeeded for the node reported, and a definition answer is the name range of the declaration the checker resolved for the hovered node; (7) the checker records a use -> declaration resolution only on the lookup-hit edge for the node whose own name was looked up.",
+		Explanation: "Decides structural necessary conditions of 'the language server answers from the latest text of the right document': (1) the document store has a single writer which stores, under the URI it is given, the text it is given together with CheckSource of that very text, and publishes - under the same URI - one diagnostic per diagnostic of that analysis; (2) didOpen / didChange hand it the URI and text of the same decoded notification, didChange the LAST content change (full sync); (3) hover, definition and symbols look the document up under the request's own TextDocument.URI, run the analysis on that document's own program and check result, and answer under the request's URI; (4) the position / range / diagnostic / symbol converters map same-named fields; (5) the hover traversal has an arm for every node kind and descends into every expression child (so every variable use and builtin call is reachable); (6) a hover result is created only after Contains(position) succeeded for the node reported, and a definition answer is the name range of the declaration the checker resolved for the hovered node; (7) the checker records a use -> declaration resolution only on the lookup-hit edge for the node whose own name was looked up; (8) the hover search leaves a loop over sibling nodes only with an answer in hand - ranges are inclusive at both ends, so the neighbour that starts where a node ends also contains that position.",
 		NotDecided:  []string{"request histories beyond 'one writer, keyed by URI, latest text stored' (interleavings are not explored)", "UTF-16 vs character columns of the LSP wire format", "the content of hover messages"},
 		Assumptions: []string{A1, A2, A4},
 		Run: func(c *rules.Ctx) {
@@ -20,6 +20,8 @@ func init() {
 			c.HoverUnderContains(ob6)
 			ob7 := c.R.Ob("C19.7", "ctrl/names", "use -> declaration resolution recorded on the hit edge for the node looked up", 4)
 			c.NameBookkeeping(ob7)
+			ob10 := c.R.Ob("C19.10", "ctrl/sibling-search", "the hover search leaves a loop over sibling nodes only with an answer (neighbouring ranges share their boundary position)", 3)
+			c.SiblingSearchExhaustive(ob10, relAnalysis, "Hover")
 			ob9 := c.R.Ob("C19.9", "origin/node-identity", "the expression checker is handed AST nodes, never the address of a local copy of one (resolutions are keyed by node address)", 1)
 			c.NodesNotCopiedBeforeChecking(ob9)
 			ob8 := c.R.Ob("C19.8", "cmp-pattern", "position ordering is lexicographic on (line, character) and containment is start <= position <= end", 2)
